@@ -31,7 +31,8 @@ def no_interp(self):
 
 @contract("xandikos.store.config.FileBasedCollectionMetadata.set_displayname",
           params={"self": "obj:xandikos.store.config.FileBasedCollectionMetadata", "displayname": "opt[str]"},
-          modifies=["self._configparser"], may_raise=["KeyError"])
+          modifies=["self._configparser"], may_raise=["KeyError"],
+          effects=[["metadata_write", "self"]])
 class set_displayname_c:
     def requires(self):
         return no_interp(self)
@@ -55,7 +56,8 @@ class get_displayname_c:
 
 @contract("xandikos.store.config.FileBasedCollectionMetadata.set_description",
           params={"self": "obj:xandikos.store.config.FileBasedCollectionMetadata", "description": "opt[str]"},
-          modifies=["self._configparser"], may_raise=["KeyError"])
+          modifies=["self._configparser"], may_raise=["KeyError"],
+          effects=[["metadata_write", "self"]])
 class set_description_c:
     def requires(self):
         return no_interp(self)
@@ -79,7 +81,8 @@ class get_description_c:
 
 @contract("xandikos.store.config.FileBasedCollectionMetadata.set_color",
           params={"self": "obj:xandikos.store.config.FileBasedCollectionMetadata", "color": "opt[str]"},
-          modifies=["self._configparser"], may_raise=["KeyError"])
+          modifies=["self._configparser"], may_raise=["KeyError"],
+          effects=[["metadata_write", "self"]])
 class set_color_c:
     def requires(self):
         return no_interp(self)
@@ -103,7 +106,8 @@ class get_color_c:
 
 @contract("xandikos.store.config.FileBasedCollectionMetadata.set_comment",
           params={"self": "obj:xandikos.store.config.FileBasedCollectionMetadata", "comment": "opt[str]"},
-          modifies=["self._configparser"], may_raise=["KeyError"])
+          modifies=["self._configparser"], may_raise=["KeyError"],
+          effects=[["metadata_write", "self"]])
 class set_comment_c:
     def requires(self):
         return no_interp(self)
@@ -127,7 +131,8 @@ class get_comment_c:
 
 @contract("xandikos.store.config.FileBasedCollectionMetadata.set_source_url",
           params={"self": "obj:xandikos.store.config.FileBasedCollectionMetadata", "url": "opt[str]"},
-          modifies=["self._configparser"], may_raise=["KeyError"])
+          modifies=["self._configparser"], may_raise=["KeyError"],
+          effects=[["metadata_write", "self"]])
 class set_source_url_c:
     def requires(self):
         return no_interp(self)
@@ -151,7 +156,8 @@ class get_source_url_c:
 
 @contract("xandikos.store.config.FileBasedCollectionMetadata.set_order",
           params={"self": "obj:xandikos.store.config.FileBasedCollectionMetadata", "order": "opt[str]"},
-          modifies=["self._configparser"], modifies_on_raise=["self._configparser"], may_raise=["KeyError"])
+          modifies=["self._configparser"], modifies_on_raise=["self._configparser"], may_raise=["KeyError"],
+          effects=[["metadata_write", "self"]])
 class set_order_c:  # (modifies_on_raise below)
     def requires(self):
         return no_interp(self)
